@@ -194,19 +194,24 @@ theorem translate_mem_fast' (c : Cfg) (hc : 1 ≤ c.bits) {r : Region} (h : Cano
 /-- empty path: the translated extents miss the representable range altogether -/
 theorem translate_out (c : Cfg) (r : Region) (dx dy : Int) (hf : ¬ FastCond c r dx dy)
     (ho : outOfRange c (r.extents.x1 + dx) (r.extents.y1 + dy) (r.extents.x2 + dx)
-      (r.extents.y2 + dy) = true) :
+      (r.extents.y2 + dy) = true) (hn : r.nar = false) :
     translate c r dx dy =
       ⟨⟨r.extents.x1, r.extents.y1, r.extents.x1, r.extents.y1⟩, .emptyStatic⟩ := by
   have hf' := mt (fastCond_iff c r dx dy).1 hf
   unfold translate
-  simp only [hf', if_false, ho, if_true]
+  simp only [hf', if_false, ho, if_true, hn, Bool.false_eq_true]
+
+/-- a canonical region is not the broken region -/
+theorem canon_not_nar {r : Region} (h : Canon r) : r.nar = false := by
+  obtain ⟨e, d⟩ := r
+  cases d <;> simp_all [Canon, Region.nar]
 
 theorem translate_mem_out' (c : Cfg) {r : Region} (h : Canon r) (dx dy : Int)
     (hf : ¬ FastCond c r dx dy)
     (ho : outOfRange c (r.extents.x1 + dx) (r.extents.y1 + dy) (r.extents.x2 + dx)
       (r.extents.y2 + dy) = true) (x y : Int) :
     (translate c r dx dy).Mem x y ↔ (r.Mem (x - dx) (y - dy) ∧ InRange c x y) := by
-  rw [translate_out c r dx dy hf ho]
+  rw [translate_out c r dx dy hf ho (canon_not_nar h)]
   constructor
   · rintro ⟨b, hb, _⟩; cases hb
   · rintro ⟨m, hr⟩
@@ -398,6 +403,6 @@ theorem translate_canon' (c : Cfg) (hc : 1 ≤ c.bits) {r : Region} (h : Canon r
         | [], _, _ => trivial
         | [b], _, hg => exact hg b (List.mem_singleton.2 rfl)
         | a :: b :: t, hv, _ => exact hv (by simp)
-    · rw [translate_out c r dx dy hf ho]; trivial
+    · rw [translate_out c r dx dy hf ho (canon_not_nar h)]; trivial
 
 end Pixman.Region
